@@ -16,8 +16,9 @@ def SEdge (p : Program) (a b : Key) : Prop := MayAsk (progOf p a) b
 structure Quiet (p : Program) (st : St) : Prop where
   inv : Inv p st
   empty : st.stack = []
+  inv2 : Inv2 p st
 
-theorem quiet_empty (p : Program) : Quiet p {} := ⟨inv_empty p, rfl⟩
+theorem quiet_empty (p : Program) : Quiet p {} := ⟨inv_empty p, rfl, inv2_empty p⟩
 
 theorem evalRoots_spec (p : Program) (wf : WFProgram p) (fuel : Nat) (hfuel : fuelFor p ≤ fuel) :
     ∀ (roots : List Key) (st : St), Quiet p st → (∀ r ∈ roots, r < p.length) →
@@ -34,8 +35,9 @@ theorem evalRoots_spec (p : Program) (wf : WFProgram p) (fuel : Nat) (hfuel : fu
     intro st q hr
     have nm : NoMarks st.stack := by rw [q.empty]; intro f hf; simp at hf
     have hco : CallerOK none st.stack := by rw [q.empty]; trivial
-    obtain ⟨res, st1, hq, post⟩ := queryFor_spec p wf fuel r none st q.inv nm hco (hr r (by simp))
-      (by intro t r' h; rw [q.empty] at h; cases h) (by unfold fuelFor at hfuel; omega)
+    obtain ⟨res, st1, hq, post⟩ := queryFor_spec p wf fuel r none st q.inv q.inv2 nm hco (hr r (by simp))
+      (by intro t r' h; rw [q.empty] at h; cases h) (by intro t r' h; rw [q.empty] at h; cases h)
+      (by unfold fuelFor at hfuel; omega)
     have hstack1 : st1.stack = [] := by
       have := post.shapeEq
       rw [q.empty] at this
@@ -48,7 +50,7 @@ theorem evalRoots_spec (p : Program) (wf : WFProgram p) (fuel : Nat) (hfuel : fu
       rw [hstack1] at h; cases h
     | value v =>
       obtain ⟨_, hval⟩ := post.val v rfl
-      have q1 : Quiet p st1 := ⟨post.inv, hstack1⟩
+      have q1 : Quiet p st1 := ⟨post.inv, hstack1, post.inv2⟩
       obtain ⟨vs, st2, hrs, q2, ⟨new2, hnew2⟩, hlen, hvals⟩ := ih st1 q1 (fun x hx => hr x (List.mem_cons_of_mem _ hx))
       obtain ⟨new1, hnew1⟩ := post.memoExt
       refine ⟨v :: vs, st2, ?_, q2, ⟨new2 ++ new1, by rw [hnew2, hnew1, List.append_assoc]⟩, by simp [hlen], ?_⟩
